@@ -18,6 +18,7 @@ typedef struct actor {
     pthread_t pt;
     volatile int started, finished;
     void *user;
+    int migrates; /* has asked to be migrated: it does not stay in the pool it was created in */
 } actor;
 
 static int sc_nes = 1;
